@@ -43,7 +43,10 @@ def fin(ok, why=None):
     if WITNESS:
         raise Reached()
     if not ok:
-        _why[0] = why
+        try:
+            _why[0] = _jsonable(_realize(why))
+        except Exception:  # noqa: BLE001
+            _why[0] = None
     return bool(ok)
 
 
